@@ -15,8 +15,11 @@ for i in range(1, 21):
     bs = c.get('bounded_standins') or []
     def short(b):
         n = (b.get('check') or b.get('name') or '?') if isinstance(b, dict) else str(b)
-        n = n.split('::')[-2] if n.count('::') >= 2 else n.split('::')[0]
-        return n.replace('(bounded)', '').split('#')[-1]
+        if n.startswith('klongpy/'):
+            n = n.split('::')[1] if '::' in n else n
+        else:
+            n = n.split('::')[0]
+        return n.replace('(bounded)', '')
     names = sorted({short(b) for b in bs})
     mk = c.get('discharged_modulo_known_findings', 0)
     print(f"| {pid} | {len(c['functions_under_contract'])} | {c['obligations']}" + (f" ({mk} modulo known findings)" if mk else '') + f" | {be} | {d['wall_s']:.0f} s | {', '.join(names)[:160] or '-'} |")
